@@ -180,6 +180,7 @@ struct Faults {
     n_huge: u64,
     n_version: u64,
     n_pairs: u64,
+    n_flip2: u64,
 }
 
 impl Faults {
@@ -187,10 +188,11 @@ impl Faults {
         let (st, strs) = structural_offsets(&buf);
         let n = buf.len() as u64;
         let s = st.len() as u64;
-        Faults { n_str: strs.len() as u64 * STR_MENU.len() as u64, strs, n_prefix: n, n_flip: 8 * n, n_sub: s * MENU.len() as u64, n_huge: s * HUGE.len() as u64, n_version: 255, n_pairs: if pairs { s * (s - 1) / 2 * 36 } else { 0 }, buf, st }
+        let bits = 8 * n;
+        Faults { n_flip2: if pairs { bits * (bits - 1) / 2 } else { 0 }, n_str: strs.len() as u64 * STR_MENU.len() as u64, strs, n_prefix: n, n_flip: 8 * n, n_sub: s * MENU.len() as u64, n_huge: s * HUGE.len() as u64, n_version: 255, n_pairs: if pairs { s * (s - 1) / 2 * 36 } else { 0 }, buf, st }
     }
     fn total(&self) -> u64 {
-        self.n_prefix + self.n_flip + self.n_sub + self.n_huge + self.n_version + self.n_str + self.n_pairs
+        self.n_prefix + self.n_flip + self.n_sub + self.n_huge + self.n_version + self.n_str + self.n_pairs + self.n_flip2
     }
     fn make(&self, mut i: u64) -> (String, Vec<u8>) {
         let b = &self.buf;
@@ -237,6 +239,21 @@ impl Faults {
             return (format!("replace-string[offset {} := {:?}]", start, rep), v);
         }
         i -= self.n_str;
+        if i >= self.n_pairs {
+            // every pair of bit flips
+            let mut k = i - self.n_pairs;
+            let bits = 8 * b.len() as u64;
+            let mut a = 0u64;
+            while k >= bits - 1 - a {
+                k -= bits - 1 - a;
+                a += 1;
+            }
+            let c = a + 1 + k;
+            let mut v = b.clone();
+            v[(a / 8) as usize] ^= 1 << (a % 8);
+            v[(c / 8) as usize] ^= 1 << (c % 8);
+            return (format!("bitflip-pair[bit {}, bit {}]", a, c), v);
+        }
         // pairs of structural substitutions over a 6-value sub-menu
         const SUB: [u8; 6] = [0x00, 0x90, 0xa0, 0xc0, 0xc4, 0xdc];
         let combo = i / 36;
@@ -535,12 +552,12 @@ fn check(ctx: &Ctx) -> i32 {
         Tier::Quick => vec![0, 1, 2, 5],
         Tier::Thorough => (0..SOURCES.len()).collect(),
     };
-    let pair_buffers: Vec<usize> = if ctx.tier == Tier::Thorough { vec![5, 6] } else { vec![] };
+    let pair_buffers: Vec<usize> = if ctx.tier == Tier::Thorough { vec![5, 6, 0] } else { vec![] };
     let mut shards: Vec<(usize, u64, u64)> = vec![];
     let mut meta = serde_json::Map::new();
     for &b in &buffers {
         let f = Faults::new(valid_buffer(b), pair_buffers.contains(&b));
-        meta.insert(SOURCES[b].name.to_string(), json!({"bytes": f.buf.len(), "structural_offsets": f.st.len(), "prefixes": f.n_prefix, "bit_flips": f.n_flip, "substitutions": f.n_sub, "huge_lengths": f.n_huge, "versions": f.n_version, "string_replacements": f.n_str, "substitution_pairs": f.n_pairs}));
+        meta.insert(SOURCES[b].name.to_string(), json!({"bytes": f.buf.len(), "structural_offsets": f.st.len(), "prefixes": f.n_prefix, "bit_flips": f.n_flip, "substitutions": f.n_sub, "huge_lengths": f.n_huge, "versions": f.n_version, "string_replacements": f.n_str, "substitution_pairs": f.n_pairs, "bit_flip_pairs": f.n_flip2}));
         let total = f.total();
         let step = 1500;
         let mut s = 0;
@@ -574,7 +591,7 @@ fn check(ctx: &Ctx) -> i32 {
     });
     ctx.finish(
         "fault_enumeration",
-        "for each valid buffer (small engines of every rule-shape family, debug on/off, tags, cosmetic rules): every prefix, every single-bit flip, every structural byte (msgpack markers and length bytes found by a walker) replaced by each of 19 marker values, a 4 GiB length header spliced at every structural position, every version byte, every string value replaced by each of 12 short texts (re-encoded with a correct length); thorough adds all pairs of structural substitutions on the two smallest buffers; plus all byte strings of length <= 5 over 8 header bytes and gzip-header variants. Each fault is loaded into a pre-loaded real engine inside a child process under a 64 MiB allocation ceiling and a 2 s ceiling; post-conditions: no panic/abort, on error the engine answers a fixed battery and serialises exactly as before, on success a battery built from the strings of the buffer runs and the engine re-serialises; distinct non-trivial = faults that loaded successfully",
+        "for each valid buffer (small engines of every rule-shape family, debug on/off, tags, cosmetic rules): every prefix, every single-bit flip, every structural byte (msgpack markers and length bytes found by a walker) replaced by each of 19 marker values, a 4 GiB length header spliced at every structural position, every version byte, every string value replaced by each of 12 short texts (re-encoded with a correct length); thorough adds all pairs of structural substitutions and all pairs of bit flips on three small buffers; plus all byte strings of length <= 5 over 8 header bytes and gzip-header variants. Each fault is loaded into a pre-loaded real engine inside a child process under a 64 MiB allocation ceiling and a 2 s ceiling; post-conditions: no panic/abort, on error the engine answers a fixed battery and serialises exactly as before, on success a battery built from the strings of the buffer runs and the engine re-serialises; distinct non-trivial = faults that loaded successfully",
         &["allocations <= 2 KiB are not counted towards the ceiling", "the battery after a successful load is a fixed URL set plus URLs built from the ASCII runs of the faulty buffer"],
     )
 }
